@@ -14,7 +14,7 @@ func init() {
 		rule: "every ordered set of <=2 (quick) / <=3 (thorough) valid patterns of <=3 tokens over {a,b,$x,$y,*,>} x 8 arrangements across sub-muxes (flat, mount before/after, through the parent, route, path prefix, depth 2, rooted mux) x 4 group templates x every name of <=4 tokens over {a,b,c} + malformed names; distinct = distinct (pattern set, arrangement, group, name, reference outcome) tuples"}
 }
 
-var c06Arr = []string{"flat", "mount-before", "mount-after", "mount-parent", "route", "path", "depth2", "rooted"}
+var c06Arr = []string{"flat", "mount-before", "mount-after", "mount-parent", "route", "path", "depth2", "rooted", "rooted2"}
 var c06Grp = []string{"none", "literal", "tagged", "parallel"}
 
 func c06Patterns() []string {
@@ -113,6 +113,10 @@ func (c c06Case) build() (root *res.Mux, prefix string, panicked string) {
 			root = res.NewMux("s")
 			prefix = "s."
 		}
+		if c.arr == "rooted2" {
+			root = res.NewMux("s.t")
+			prefix = "s.t."
+		}
 		opts := func(i int, rel string) []res.Option {
 			o := []res.Option{res.Call(fmt.Sprintf("h%d", i), func(res.CallRequest) {})}
 			if i == 0 {
@@ -134,7 +138,7 @@ func (c c06Case) build() (root *res.Mux, prefix string, panicked string) {
 		}
 		// patterns whose first token is the literal "a" (and have more tokens) live in a sub-mux
 		inSub := func(p string) bool {
-			return c.arr != "flat" && c.arr != "rooted" && strings.HasPrefix(p, "a.")
+			return c.arr != "flat" && c.arr != "rooted" && c.arr != "rooted2" && strings.HasPrefix(p, "a.")
 		}
 		inSub2 := func(p string) bool { return c.arr == "depth2" && strings.HasPrefix(p, "a.b.") }
 		var sub, sub2 *res.Mux
@@ -301,6 +305,20 @@ func c06Check(c c06Case, names, bad []string, emit func(desc, input string), cou
 			emit(fmt.Sprintf("GetHandler(%q) returned %d listeners, want %d (patterns %v, %s)", full, len(mh.Listeners), wantListeners, c.pats, c.arr), in+"|"+n)
 		}
 		count(in + "|" + n + "|" + fmt.Sprint(best))
+	}
+	if prefix != "" {
+		// near misses of the mux path: only names equal to the path or continuing it after a dot belong to the mux
+		base := strings.TrimSuffix(prefix, ".")
+		for _, n := range names {
+			for _, nm := range []string{n, base + n, base + "x." + n, "x" + prefix + n, base[:len(base)-1] + "." + n, base + ".." + n} {
+				var mh *res.Match
+				if pn := safe(func() { mh = root.GetHandler(nm) }); pn != "" {
+					emit(fmt.Sprintf("GetHandler(%q) panicked on a mux with path %q: %s", nm, base, pn), in+"|"+n)
+				} else if mh != nil && !strings.HasPrefix(nm, prefix) {
+					emit(fmt.Sprintf("GetHandler(%q) returned a handler on a mux with path %q (patterns %v)", nm, base, c.pats), in+"|"+n)
+				}
+			}
+		}
 	}
 	for _, n := range bad {
 		if pn := safe(func() { root.GetHandler(n); root.GetHandler(prefix + n) }); pn != "" {
